@@ -47,7 +47,13 @@ enum Dir {
     InFiller,
     OutEmpty,
     OutAfterSmall,
+    /// messages enqueued one after the other without a flush until one is refused
+    OutPipeline,
 }
+
+/// Limits for the pipeline direction: also beyond 1 MiB and not powers of two (all multiples of the
+/// 256-byte growth step, like the production value, because the limit is enforced per step).
+const PIPE_LIMITS: [usize; 8] = [2048, 16384, 65536, 65536 + 256 * 37, (1 << 20) + 256 * 3, 3 << 19, (5 << 19) + 256 * 11, 3 << 20];
 
 #[derive(Debug, Clone)]
 struct Case {
@@ -106,7 +112,8 @@ impl Prop for Bounded {
             } else {
                 let cfg = Cfg::swarm(t);
                 let limit = LIMITS[t.draw(LIMITS.len() - 1)];
-                let dir = [Dir::InValid, Dir::InFiller, Dir::OutEmpty, Dir::OutAfterSmall, Dir::InBurst][t.draw(5)];
+                let dir = [Dir::InValid, Dir::InFiller, Dir::OutEmpty, Dir::OutAfterSmall, Dir::InBurst, Dir::OutPipeline][t.draw(6)];
+                let limit = if dir == Dir::OutPipeline { PIPE_LIMITS[t.draw(PIPE_LIMITS.len())] } else { limit };
                 let n = match t.draw(4) {
                     0 => 256 * (1 + t.draw(limit / 256 + 2)) + t.draw(7) - 3,
                     1 => limit + t.draw(7) - 3,
@@ -286,6 +293,101 @@ impl Prop for Bounded {
                 }
                 Ok(world.borrow().scenario.clone())
             }
+            Dir::OutPipeline => {
+                let (rd, wr) = {
+                    let mut w = world.borrow_mut();
+                    let rd = w.scripted_pipe(&[], false);
+                    let wr = w.sink_pipe();
+                    w.step_cap = 10_000;
+                    (rd, wr)
+                };
+                // message sizes: a base size (bigger for big limits, to keep the count in the
+                // hundreds) varied per message by the tape
+                let base = out_wire_len(0);
+                let unit = (l / 150).clamp(40, 9000);
+                let sizes: Vec<usize> = {
+                    let mut w = world.borrow_mut();
+                    let mut v = Vec::new();
+                    let mut total = 0usize;
+                    while total <= l + 3 * unit && v.len() < 4000 {
+                        let n = base + match w.tape.draw(4) {
+                            0 => w.tape.draw(40),
+                            1 => unit + w.tape.draw(7),
+                            2 => w.tape.draw(2 * unit),
+                            _ => 256 * (1 + w.tape.draw(unit / 256 + 1)) - base % 256 + w.tape.draw(5),
+                        };
+                        total += n + 1;
+                        v.push(n);
+                    }
+                    v
+                };
+                let outcome: Rc<RefCell<Vec<(usize, String)>>> = Rc::new(RefCell::new(Vec::new()));
+                let tail: Rc<RefCell<Vec<String>>> = Rc::new(RefCell::new(Vec::new()));
+                {
+                    let mut conn = Connection::new(W::socket(world, rd, wr));
+                    let mut ex = Exec::new();
+                    let (o2, t2, sizes2) = (outcome.clone(), tail.clone(), sizes.clone());
+                    ex.spawn(async move {
+                        for n in sizes2 {
+                            let r = conn.enqueue_call(&out_call(n - base));
+                            let name = res_name(&r);
+                            o2.borrow_mut().push((n, name.clone()));
+                            if name != "ok" {
+                                break;
+                            }
+                        }
+                        let r = conn.flush().await;
+                        t2.borrow_mut().push(format!("flush:{}", res_name(&r)));
+                        let r = conn.send_call(&out_call(5)).await;
+                        t2.borrow_mut().push(format!("after:{}", res_name(&r)));
+                    });
+                    ex.run(world);
+                }
+                let o = outcome.borrow();
+                let mut pending = 0usize;
+                let mut accepted: Vec<usize> = Vec::new();
+                for (i, (n, r)) in o.iter().enumerate() {
+                    let total = pending + n + 1;
+                    match r.as_str() {
+                        "ok" => {
+                            if total > l {
+                                return Err(("C17/oversize-message-not-refused".into(), format!("message {i} of {n} bytes was accepted with {pending} bytes already pending: {total} bytes queued, limit {l}")));
+                            }
+                            pending = total;
+                            accepted.push(*n);
+                        }
+                        "overflow" => {
+                            if total < l {
+                                return Err(("C17/message-below-limit-refused".into(), format!("message {i} of {n} bytes refused with {pending} bytes pending ({total} in all), limit {l}")));
+                            }
+                            world.borrow_mut().stat("outbound_pipeline_refused_at_limit");
+                        }
+                        other => return Err(("C17/unexpected-result".into(), format!("pipelined message {i}: {other}"))),
+                    }
+                }
+                if o.last().map(|x| x.1 == "ok").unwrap_or(true) {
+                    return Err(("C17/oversize-message-not-refused".into(), format!("{} messages totalling {pending} bytes were all accepted, limit {l}", o.len())));
+                }
+                let t = tail.borrow();
+                if t.first().map(|s| s.as_str()) != Some("flush:ok") || t.get(1).map(|s| s.as_str()) != Some("after:ok") {
+                    return Err(("C17/connection-unusable-after-refusal".into(), format!("after the refusal: {t:?} (limit {l}, {} messages accepted)", accepted.len())));
+                }
+                let w = world.borrow();
+                let log = &w.pipes[wr].log;
+                let frames: Vec<&[u8]> = if log.is_empty() { vec![] } else { log[..log.len() - 1].split(|b| *b == 0).collect() };
+                let got: Vec<usize> = frames.iter().map(|f| f.len()).collect();
+                let mut want = accepted.clone();
+                want.push(out_wire_len(5));
+                if got != want || log.last() != Some(&0) {
+                    let first = got.iter().zip(want.iter()).position(|(a, b)| a != b).unwrap_or(got.len().min(want.len()));
+                    return Err(("C17/wrong-bytes-after-refusal".into(), format!("transport received {} frames, expected {} (the accepted ones and the trailing one); first difference at frame {first}: {:?} vs {:?} (limit {l})", got.len(), want.len(), got.get(first), want.get(first))));
+                }
+                drop(w);
+                if l > (1 << 20) {
+                    world.borrow_mut().stat("probe.outbound_pipeline_beyond_1MiB");
+                }
+                Ok(world.borrow().scenario.clone())
+            }
             Dir::OutEmpty | Dir::OutAfterSmall => {
                 // ---- outbound
                 let (rd, wr) = {
@@ -404,7 +506,7 @@ impl Prop for Bounded {
     }
 
     fn rule(&self) -> String {
-        "Each execution = one limit value L (hook-set: 1, 2, 4, 8, 16 or 64 KiB; thorough also a few runs at the production 100 MiB inbound), one direction (inbound valid frame / inbound unterminated filler / outbound message into an empty buffer / outbound after two small enqueued messages), one size n and one chunking. Systematic part: every n within +-3 of every multiple of 256 up to L+512, each direction, three chunkings inbound. Oracle: total < L => accepted (decoded value / exact frames on the transport); n >= L (total > L outbound) => Error::BufferOverflow, nothing of the refused message reaches the transport, a following small message goes out intact; total == L is a don't-care; on overflow the bytes consumed in that burst are <= L + 256. Non-trivial = partial delivery / short read / stall happened or the size is within 3 of a growth step; distinct = distinct event-sequence hash.".into()
+        "Each execution = one limit value L (hook-set: 1, 2, 4, 8, 16 or 64 KiB; thorough also a few runs at the production 100 MiB inbound), one direction (inbound valid frame / inbound unterminated filler / inbound burst of small frames / outbound message into an empty buffer / outbound after two small enqueued messages / outbound pipeline: hundreds of messages enqueued without a flush until one is refused, with limits up to 3 MiB that are not powers of two), one size n and one chunking. Systematic part: every n within +-3 of every multiple of 256 up to L+512, each direction, three chunkings inbound. Oracle: total < L => accepted (decoded value / exact frames on the transport); n >= L (total > L outbound) => Error::BufferOverflow, nothing of the refused message reaches the transport, a following small message goes out intact; total == L is a don't-care; on overflow the bytes consumed in that burst are <= L + 256. Non-trivial = partial delivery / short read / stall happened or the size is within 3 of a growth step; distinct = distinct event-sequence hash.".into()
     }
 
     fn components(&self) -> Value {
@@ -418,7 +520,7 @@ impl Prop for Bounded {
     fn assumptions(&self) -> Vec<String> {
         vec![
             "the statement does not say whether the terminator counts towards the limit; size == L-1 (total == L) is therefore accepted either way".into(),
-            "one frame per burst: pipelined bursts whose total exceeds the limit are outside this property's statement".into(),
+            "hook-set limits are multiples of the 256-byte growth step, like the production value (the limit is enforced per growth step)".into(),
         ]
     }
 
